@@ -1,7 +1,7 @@
 CONSTANTS
  NS = {2,3,4,5,6}
  CodeMax = 7
- KInits = {1,2,128}
+ KInits = {1,2}
  Variants = {0}
  Level = 1
  Emit = FALSE
